@@ -9,6 +9,56 @@ ASSUMPTIONS = ["allocation succeeds", "C-locale ctype models"]
 ENV = ["env_alloc.c", "env_misc.c", "env_sync.c", "env_libc.c"]
 
 
+def _compositions(total, maxparts):
+    """all ways to cut `total` bytes into 1..maxparts positive segments"""
+    out = []
+
+    def rec(rest, parts):
+        if rest == 0:
+            out.append(list(parts))
+            return
+        if len(parts) == maxparts:
+            return
+        for k in range(1, rest + 1):
+            rec(rest - k, parts + [k])
+    rec(total, [])
+    return out
+
+
+def httpconn_queries(tier):
+    """the buffered reader / writer of the real http_conn.c under every segmentation of a short stream"""
+    qs = []
+    HC_ENV = ENV + ["env_aio.c"]
+    HC_TUS = ["core/list.c"]
+
+    def q(name, d, params):
+        qs.append(Query("httpconn-" + name, "c16/httpconn.c", tus=HC_TUS, env=HC_ENV, defs=d, unwind=30, timeout=300, mem_gb=4, group="c16/httpconn.c#m%s" % d["MODE"],
+                        params=params))
+    # MODE 1: head (two lines, ends at 3 and 7) + exact read of 5 + raw read; the first 12 (thorough: 14) bytes cut into segments
+    total, parts = (12, 3) if tier == "quick" else (14, 4)
+    for fl, fn in ((0, "req"), (1, "res"), (2, "chunk")):
+        comps = _compositions(total, parts if fl == 1 or tier != "quick" else 2)
+        for c in comps:
+            segs = c + [9]
+            for niov in ((1, 2) if (fl == 1 and (tier != "quick" or len(c) <= 2)) else (1,)):
+                q("%s-segs%s-iov%d" % (fn, "_".join(map(str, segs)), niov), {"MODE": 1, "FLAVOR": fl, "SEGS": ", ".join(map(str, segs)), "NIOV": niov, "L": 5},
+                  {"mode": "head then exact read then raw read", "flavor": fn, "segments": segs, "iovs": niov, "head_lines_end_at": [3, 7]})
+    for c in _compositions(8, 2 if tier == "quick" else 3):
+        segs = c + [9]
+        q("discard-segs%s" % "_".join(map(str, segs)), {"MODE": 2, "SEGS": ", ".join(map(str, segs)), "D": 3, "L": 4}, {"mode": "discard 3 then exact read 4", "segments": segs})
+    for c in _compositions(6, 3):
+        for niov in (1, 2):
+            q("write-full-segs%s-iov%d" % ("_".join(map(str, c)), niov), {"MODE": 3, "SEGS": ", ".join(map(str, c)), "NIOV": niov, "L": 6},
+              {"mode": "full write of 6 bytes", "transport_accepts": c, "iovs": niov})
+    for first in (1, 3, 6):
+        q("write-raw-first%d" % first, {"MODE": 3, "RAWWR": 1, "SEGS": "%d, 9" % first, "NIOV": 2, "L": 6}, {"mode": "raw write", "transport_accepts_first": first})
+    for fl, fn in ((0, "req"), (1, "res")):
+        for segs in ([16, 8], [7, 9, 8], [15, 1, 8]):
+            q("toolong-%s-segs%s" % (fn, "_".join(map(str, segs))), {"MODE": 4, "FLAVOR": fl, "SEGS": ", ".join(map(str, segs)), "LINE1": 20, "HDREND": 22},
+              {"mode": "head line longer than the read buffer", "flavor": fn, "segments": segs})
+    return qs
+
+
 def queries(tier):
     qs = []
     CTU = ["core/list.c"]
@@ -96,6 +146,7 @@ def queries(tier):
         qs.append(kern("resline-n%d-version" % ll, {"KERNEL": 3, "LL": ll, "FIXRES": 1}, "http_res_parse_line"))
     for ll in ((5, 7) if tier == "quick" else (3, 4, 5, 6, 7, 8, 9)):
         qs.append(kern("header-n%d" % ll, {"KERNEL": 4, "LL": ll}, "http_parse_header"))
+    qs += httpconn_queries(tier)
     return qs
 
 MANIFEST = {
